@@ -121,11 +121,21 @@ def main():
                     ctx.assumptions.append(f"corpus case {f} could not be replayed: {type(e).__name__}: {e}")
             mod.run(ctx)
     except Exception as e:
-        if proof_broken is None:
+        # an exception that comes out of the code under test (innermost frame in /repo) on an input the harness generated as valid is a failure of the
+        # implementation, not of the infrastructure: report it with the input the generator was working on (the seed reproduces it)
+        tb = traceback.extract_tb(e.__traceback__)
+        inner = tb[-1] if tb else None
+        from_repo = inner is not None and os.path.realpath(inner.filename).startswith(os.path.realpath(common.REPO) + os.sep)
+        if from_repo:
+            chain = [f"{os.path.relpath(fr.filename, common.REPO) if fr.filename.startswith(common.REPO) else os.path.basename(fr.filename)}:{fr.lineno} {fr.name}" for fr in tb[-6:]]
+            ctx.violations.append({"what": f"the implementation raised {type(e).__name__}: {str(e)[:200]} on a generated valid input", "layer": "-",
+                                   "traceback": chain, "sig": {"clause": "implementation-raised", "exception": type(e).__name__, "where": inner.name}})
+        elif proof_broken is None:
             traceback.print_exc()
             print("CHECK-ERROR", e)
             sys.exit(2)
-        ctx.assumptions.append(f"tie not run: {e}")
+        else:
+            ctx.assumptions.append(f"tie not run: {e}")
 
     # 6. verdict
     out_lines = []
